@@ -604,7 +604,7 @@ def selftest():
                         same(rm[i, j, k, h], v["Riemann_uddd"][i][j][k][h])
     # 5. algebraic identities on the generic 4D Lorentzian non-diagonal
     # transcendental metric
-    case = fixed(G4, False, KEYS)
+    case = fixed(G4T, False, KEYS)
     X, g = build_metric(case)
     ref = Reference(X, g, points_of(case), False)
     R4 = range(4)
@@ -640,6 +640,9 @@ class _Budget(BaseException):
 @contextmanager
 def time_limit(seconds):
     def handler(signum, frame):
+        # re-arm: if this exception is raised where Python ignores exceptions
+        # (a gc callback, __del__), the next tick raises it again
+        signal.setitimer(signal.ITIMER_REAL, 0.25)
         raise _Budget()
     old = signal.signal(signal.SIGALRM, handler)
     signal.setitimer(signal.ITIMER_REAL, max(0.01, seconds))
@@ -1033,6 +1036,24 @@ def run_textbook(case, tier, budget=None):
             out.fails[base] = obs
         elif v == "inherited":
             out.classes.append(f"inherited:{base}<-{'+'.join(obs['upstream'])}")
+            # the wrong upstream value sits in rel.data and is exactly what a
+            # request for it returns: report the root cause even if the order
+            # does not request it explicitly
+            todo = list(obs["upstream"])
+            while todo:
+                u = todo.pop()
+                ub = sess.base(u)
+                if ub in out.fails or u in sess.order:
+                    continue
+                uv, uobs = chk.verdict(u, sess.rel.data[u])
+                out.checked.add(ub)
+                if uv == "own":
+                    out.fails[ub] = dict(uobs, key=u, simplify=sess.simplify,
+                                         branch=sess.branch.get(u),
+                                         obtained="implicitly, as a "
+                                         f"dependency of {key}")
+                elif uv == "inherited":
+                    todo.extend(uobs["upstream"])
         if key in sess.branch:
             out.classes.append(base)
     out.classes.append("relerr<=1e-%d" % min(
@@ -1047,12 +1068,12 @@ _SIMPLIFY_TAG = {}
 def simplify_needed(base, case, tier):
     """Is simplify=False necessary for this failure?  Decided once per
     process and discriminator on the diagonal part of the failing case with
-    simplify=True (cheap); undecidable within 20 s -> no tag."""
+    simplify=True (cheap); undecidable within 6 s -> no tag."""
     if base not in _SIMPLIFY_TAG:
         key = base.replace("raises:", "").split(":")[0]
         order = (["Riemann_uddd"] if "from-uddd" in base else []) + [key]
         probe = run_textbook(diag_variant(case, simplify=True, order=order),
-                             tier, budget=20.0)
+                             tier, budget=6.0)
         _SIMPLIFY_TAG[base] = (base in probe.checked
                                and base not in probe.fails)
     return _SIMPLIFY_TAG[base]
@@ -1150,7 +1171,14 @@ def run_pair(case, tier, which):
                                  eval_key(obj, key, S, points, exact))
         return cache[(tag, key)]
 
+    dcache = {}
+
     def differs(key):
+        if key not in dcache:
+            dcache[key] = _differs(key)
+        return dcache[key]
+
+    def _differs(key):
         a, b = values("A", A, key), values("B", B, key)
         if a is None or b is None or a[2] or b[2]:
             return None
@@ -1166,15 +1194,16 @@ def run_pair(case, tier, which):
                 return bad
         return False
 
+    def base_of(key):
+        if key not in BRANCHY:
+            return key
+        brs = sorted({str(A.branch.get(key)), str(B.branch.get(key))})
+        return f"{key}:" + "-vs-".join(brs)
+
     for key in A.order:
         if ("A", key) not in got or ("B", key) not in got:
             continue
-        if which == "simplify":
-            base = A.base(key)
-        else:
-            ba, bb = A.branch.get(key), B.branch.get(key)
-            base = (f"{key}:" + "-vs-".join(sorted({ba, bb}))
-                    if key in BRANCHY else key)
+        base = base_of(key)
         d = differs(key)
         if d is None:
             out.classes.append("unchecked:eval")
@@ -1187,6 +1216,21 @@ def run_pair(case, tier, which):
         ups = [u for u in closure(key) if differs(u)]
         if ups:
             out.classes.append(f"inherited:{key}<-{'+'.join(sorted(ups))}")
+            # report the first divergent upstream key(s) if the order does not
+            # request them (their values sit in rel.data and are what a
+            # request returns)
+            for u in ups:
+                if u in A.order and u in B.order:
+                    continue
+                if any(differs(w) for w in closure(u)):
+                    continue
+                ub = base_of(u)
+                out.checked.add(ub)
+                out.fails.setdefault(ub, dict(
+                    differs(u), key=u, obtained="implicitly, as a dependency "
+                    f"of {key}", instance_first=dict(
+                        simplify=A.simplify, order=A.order),
+                    instance_second=dict(simplify=B.simplify, order=B.order)))
             continue
         out.fails[base] = dict(d, key=key, instance_first=dict(
             simplify=A.simplify, order=A.order), instance_second=dict(
@@ -1227,13 +1271,17 @@ def term(draw, kinds, n, coefs, allowed):
 
 
 @st.composite
-def metric(draw, dims, size):
-    """size: dict(maxd=, maxo=, p_off=, max_pairs=, max_vars=, kinds=)."""
-    n = draw(st.sampled_from(dims))
+def metric(draw, sizes):
+    """sizes: list of (dim, dict(maxd=, mind=, maxo=, p_off=, max_pairs=,
+    max_pairs_trans=, max_vars=, kinds=))."""
+    n, size = sizes[draw(st.integers(0, len(sizes) - 1))]
     kind = draw(st.sampled_from(size["kinds"]))
     kinds = POLY if kind in ("poly", "trans") else RAT
     nv = min(n, size.get("max_vars", n))
     allowed = sorted(draw(st.permutations(list(range(n))))[:nv])
+    max_pairs = size.get("max_pairs", 99)
+    if kind == "trans":
+        max_pairs = min(max_pairs, size.get("max_pairs_trans", 99))
     diag = []
     for i in range(n):
         k = draw(st.integers(size.get("mind", 0), size["maxd"]))
@@ -1244,7 +1292,7 @@ def metric(draw, dims, size):
     off = []
     pairs = [(i, j) for i in range(n) for j in range(i + 1, n)]
     for (i, j) in pairs:
-        if len(off) >= size.get("max_pairs", 99):
+        if len(off) >= max_pairs:
             break
         if draw(st.integers(0, 99)) < size["p_off"]:
             k = draw(st.integers(1, size["maxo"]))
@@ -1282,23 +1330,32 @@ def order_strategy(draw, full_bias=False):
 
 
 @st.composite
-def case_strategy(draw, dims, size, simplify, pair=None):
-    c = draw(metric(dims, size))
-    c["simplify"] = simplify if isinstance(simplify, bool) \
-        else draw(st.booleans())
+def case_strategy(draw, sizes, simplify, pair=None):
+    c = draw(metric(sizes))
+    c["simplify"] = simplify
     c["points"] = [draw(point(c["dim"])) for _ in range(2)]
-    c["order"] = draw(order_strategy(full_bias=not c["simplify"]))
+    c["order"] = draw(order_strategy(full_bias=not simplify))
     if pair == "order":
-        c["order2"] = draw(order_strategy(full_bias=not c["simplify"]))
+        c["order2"] = draw(order_strategy(full_bias=not simplify))
     return c
 
 
-FULL = dict(maxd=2, mind=1, maxo=2, p_off=50, kinds=["poly", "rat", "trans"])
-# simplify=True is expensive: keep expressions tiny
-TINY2 = dict(maxd=1, mind=0, maxo=1, p_off=50, kinds=["poly", "poly", "rat",
-                                                      "trans"])
+K3 = ["poly", "rat", "trans"]
+K4 = ["poly", "poly", "rat", "trans"]
+FULL = dict(maxd=2, mind=1, maxo=2, p_off=50, max_pairs_trans=1, kinds=K3)
+MID3 = dict(maxd=2, mind=0, maxo=1, p_off=50, max_pairs_trans=1, kinds=K3)
+# sympy's Matrix.inv() is very slow for 4x4 matrices with several
+# off-diagonal entries (minutes with a sin/exp entry): keep 4D sparse
+SPARSE4 = dict(maxd=1, mind=0, maxo=1, p_off=25, max_pairs=2,
+               max_pairs_trans=1, kinds=K3)
+MID4 = dict(maxd=2, mind=1, maxo=1, p_off=34, max_pairs=3,
+            max_pairs_trans=1, kinds=K3)
+# simplify=True is expensive (minutes for a generic 3D non-diagonal metric):
+# keep the expressions tiny
+TINY2 = dict(maxd=1, mind=0, maxo=1, p_off=50, kinds=K4)
+SMALL2 = dict(maxd=2, mind=1, maxo=1, p_off=50, kinds=K4)
 TINY3 = dict(maxd=1, mind=0, maxo=1, p_off=34, max_pairs=1, max_vars=2,
-             kinds=["poly", "poly", "rat", "trans"])
+             kinds=K4)
 TINY4 = dict(maxd=1, mind=0, maxo=1, p_off=17, max_pairs=1, max_vars=2,
              kinds=["poly", "poly", "trans"])
 
@@ -1322,25 +1379,36 @@ G3 = dict(dim=3,
           diag=[dict(sign=1, D=3, terms=[T((1, 2), "sq", 1),
                                          T((1, 3), "lin", 2)]),
                 dict(sign=1, D=4, terms=[T((1, 3), "mix", 0, 2)]),
-                dict(sign=1, D=5, terms=[T((-1, 2), "rat", 0),
+                dict(sign=1, D=5, terms=[T((-1, 2), "lin", 0),
                                          T((1, 4), "sq", 1)])],
           off=[dict(i=0, j=1, terms=[T((1, 4), "lin", 2)]),
                dict(i=0, j=2, terms=[T((-1, 5), "mix", 0, 1)]),
-               dict(i=1, j=2, terms=[T((1, 6), "rat2", 2, 0)])],
+               dict(i=1, j=2, terms=[T((1, 6), "sq", 0)])],
           points=[[[3, 4], [-2, 3], [5, 7]], [[-5, 7], [1, 2], [-3, 2]]])
+# the same with a rational and a transcendental entry
+G3R = dict(G3, diag=[G3["diag"][0], G3["diag"][1],
+                     dict(sign=1, D=5, terms=[T((-1, 2), "rat", 0),
+                                              T((1, 4), "sq", 1)])],
+           off=[G3["off"][0], G3["off"][1],
+                dict(i=1, j=2, terms=[T((1, 6), "rat2", 2, 0)])])
+G3T = dict(G3, diag=[G3["diag"][0], G3["diag"][1],
+                     dict(sign=1, D=5, terms=[T((-1, 2), "exp", 0),
+                                              T((1, 4), "sq", 1)])])
 G4 = dict(dim=4,
           diag=[dict(sign=-1, D=3, terms=[T((1, 2), "sq", 1),
                                           T((1, 3), "lin", 3)]),
-                dict(sign=1, D=4, terms=[T((1, 3), "sin", 0, 2)]),
+                dict(sign=1, D=4, terms=[T((1, 3), "mix", 0, 2)]),
                 dict(sign=1, D=5, terms=[T((-1, 2), "lin", 0),
                                          T((1, 4), "sq", 3)]),
                 dict(sign=1, D=3, terms=[T((1, 4), "mix", 1, 2)])],
           off=[dict(i=0, j=1, terms=[T((1, 4), "lin", 2)]),
-               dict(i=0, j=3, terms=[T((-1, 5), "mix", 0, 1)]),
-               dict(i=1, j=2, terms=[T((1, 6), "sq", 3)]),
-               dict(i=2, j=3, terms=[T((1, 5), "lin", 0)])],
+               dict(i=0, j=3, terms=[T((-1, 5), "mix", 0, 1)])],
           points=[[[3, 4], [-2, 3], [5, 7], [1, 5]],
                   [[-5, 7], [1, 2], [-3, 2], [4, 3]]])
+G4T = dict(G4, diag=[G4["diag"][0],
+                     dict(sign=1, D=4, terms=[T((1, 3), "sin", 0, 2)]),
+                     G4["diag"][2], G4["diag"][3]],
+           off=[dict(i=1, j=3, terms=[T((1, 4), "lin", 2)])])
 # 3D, one off-diagonal pair, two variables: affordable with simplify=True
 G3S = dict(dim=3,
            diag=[dict(sign=1, D=3, terms=[T((1, 2), "sq", 1)]),
@@ -1362,41 +1430,39 @@ def fixed(metric_, simplify, order, **kw):
 
 def subchecks(tier):
     q = tier == "quick"
-    dims_s = [2, 2, 3] if q else [2, 2, 3, 3, 4]
-
-    def s_case(pair=None, simplify=True):
-        return st.one_of(
-            case_strategy([2], TINY2, simplify, pair),
-            case_strategy([3], TINY3, simplify, pair),
-            *([] if q else [case_strategy([4], TINY4, simplify, pair)]))
-    del dims_s
-    ns_case = case_strategy([2, 3, 3, 4] if q else [2, 3, 4, 4], FULL, False)
+    if q:
+        s_sizes = [(2, TINY2), (2, TINY2), (3, TINY3)]
+        ns_sizes = [(2, FULL), (3, MID3), (3, MID3), (4, SPARSE4)]
+    else:
+        s_sizes = [(2, TINY2), (2, SMALL2), (3, TINY3), (4, TINY4)]
+        ns_sizes = [(2, FULL), (3, FULL), (3, MID3), (4, SPARSE4), (4, MID4)]
+    order_cases = case_strategy(ns_sizes, False, "order")
+    if not q:
+        order_cases = st.one_of(order_cases, order_cases, order_cases,
+                                case_strategy(s_sizes, True, "order"))
     return [
-        Sub("textbook_simplify", s_case(), make_test_textbook(tier),
-            8 if q else 160,
+        Sub("textbook_simplify", case_strategy(s_sizes, True),
+            make_test_textbook(tier), 8 if q else 160,
             generic=[fixed(G2, True, DIRECT_FIRST),
                      fixed(G2, True, UDDD_FIRST),
                      fixed(G3S, True, DIRECT_FIRST[:4]),
                      fixed(G3D, True, UDDD_FIRST[:8])],
             shards=8 if q else 16, shrink_quick=False, max_rounds=3),
-        Sub("textbook_nosimplify", ns_case, make_test_textbook(tier),
-            160 if q else 4000,
+        Sub("textbook_nosimplify", case_strategy(ns_sizes, False),
+            make_test_textbook(tier), 100 if q else 4000,
             generic=[fixed(G3, False, DIRECT_FIRST),
                      fixed(G3, False, UDDD_FIRST),
-                     fixed(G4, False, DIRECT_FIRST),
+                     fixed(G4, False, UDDD_FIRST),
+                     fixed(G4T, False, DIRECT_FIRST),
                      fixed(G2, False, UDDD_FIRST)],
             shards=8 if q else 16, shrink_quick=False, max_rounds=6),
-        Sub("simplify_indep", s_case(simplify=True),
+        Sub("simplify_indep", case_strategy(s_sizes, True),
             make_test_pair(tier, "simplify"), 4 if q else 100,
             generic=[fixed(G2, True, UDDD_FIRST[:7]),
                      fixed(G3D, True, DIRECT_FIRST[:2])],
             shards=4 if q else 16, shrink_quick=False, max_rounds=3),
-        Sub("order_indep",
-            st.one_of(case_strategy([2, 3, 3, 4], FULL, False, "order"),
-                      case_strategy([2, 3, 4], FULL, False, "order"),
-                      s_case("order")) if not q else
-            case_strategy([2, 3, 3, 4], FULL, False, "order"),
-            make_test_pair(tier, "order"), 80 if q else 1500,
+        Sub("order_indep", order_cases, make_test_pair(tier, "order"),
+            60 if q else 1500,
             generic=[fixed(G3, False, DIRECT_FIRST, order2=UDDD_FIRST),
                      fixed(G2, True, DIRECT_FIRST[:2],
                            order2=UDDD_FIRST[:6])],
